@@ -128,11 +128,84 @@ pub fn profile(name: &str) -> Profile {
             reject_percent: 3,
             long_names: false,
         },
+        "restarts" => Profile {
+            name: "restarts",
+            queues: 3,
+            steps: 24,
+            weights: [10, 6, 40, 18, 3, 23],
+            lens: vec![(1, 10), (40, 40), (9000, 30), (50_000, 20)],
+            max_batch: 4,
+            explicit_pos_percent: 25,
+            reject_percent: 5,
+            long_names: false,
+        },
+        "rejects" => Profile {
+            name: "rejects",
+            queues: 4,
+            steps: 30,
+            weights: [14, 10, 45, 16, 3, 12],
+            lens: vec![(1, 20), (40, 50), (9000, 20), (40_000, 10)],
+            max_batch: 3,
+            explicit_pos_percent: 65,
+            reject_percent: 45,
+            long_names: false,
+        },
+        "persist" => Profile {
+            name: "persist",
+            queues: 3,
+            steps: 24,
+            weights: [10, 5, 42, 18, 18, 7],
+            lens: vec![(40, 40), (9000, 30), (50_000, 30)],
+            max_batch: 3,
+            explicit_pos_percent: 10,
+            reject_percent: 3,
+            long_names: false,
+        },
+        "boundary" => Profile {
+            name: "boundary",
+            queues: 2,
+            steps: 30,
+            weights: [6, 2, 62, 18, 2, 10],
+            // replaced by the boundary menu in `generate`
+            lens: vec![(40, 100)],
+            max_batch: 2,
+            explicit_pos_percent: 5,
+            reject_percent: 2,
+            long_names: false,
+        },
+        "drain" => Profile {
+            name: "drain",
+            queues: 3,
+            steps: 20,
+            weights: [12, 4, 55, 22, 2, 5],
+            lens: vec![(1, 10), (40, 40), (9000, 30), (70_000, 20)],
+            max_batch: 4,
+            explicit_pos_percent: 10,
+            reject_percent: 3,
+            long_names: false,
+        },
+        "idle" => Profile {
+            name: "idle",
+            queues: 4,
+            steps: 36,
+            weights: [4, 2, 60, 26, 2, 6],
+            lens: vec![(40, 15), (20_000, 35), (60_000, 35), (100_000, 15)],
+            max_batch: 2,
+            explicit_pos_percent: 8,
+            reject_percent: 2,
+            long_names: false,
+        },
         other => panic!("unknown profile {other}"),
     }
 }
 
-pub const PROFILES: [&str; 8] = [
+pub const PROFILES: [&str; 14] = [
+    "restarts",
+    "rejects",
+    "persist",
+    "boundary",
+    "drain",
+    "idle",
     "small",
     "gc-heavy",
     "big",
@@ -273,9 +346,22 @@ pub fn generate(profile_name: &str, seed: u64, policy: &str) -> Script {
                         pick -= weight;
                     }
                     payload_seed += 1;
+                    let len = if prof.name == "boundary" {
+                        // lengths around multiples of the block size, so that frames end near
+                        // block and file ends at drifting alignments
+                        match rng.below(6) {
+                            0 => rng.below(30) as usize,
+                            1 | 2 => (32_768 * (1 + rng.below(2)) as usize).saturating_sub(rng.below(90) as usize),
+                            3 => (32_768 * (1 + rng.below(4)) as usize) + rng.below(40) as usize,
+                            4 => 131_072usize.saturating_sub(rng.below(120) as usize),
+                            _ => rng.below(3000) as usize,
+                        }
+                    } else {
+                        rng.below(max_len as u64) as usize
+                    };
                     batch.push(Payload {
                         seed: payload_seed,
-                        len: rng.below(max_len as u64) as usize,
+                        len,
                         embed: None,
                     });
                 }
@@ -379,6 +465,57 @@ pub fn generate(profile_name: &str, seed: u64, policy: &str) -> Script {
             if queue.next - anchor > ANCHOR_SPAN / 2 {
                 queue.exists = false; // stop using it; cannot happen with these step counts
             }
+        }
+    }
+    if prof.name == "idle" {
+        // queue 0: created, appended to, emptied by a truncation (sometimes into the future), then
+        // left idle while the others roll and collect files; appended to again at the end
+        let mut head = vec![
+            Step::Create { q: 0 },
+            Step::Append {
+                q: 0,
+                pos: if rng.chance(50) { Some(rng.below(40)) } else { None },
+                batch: (0..1 + rng.below(3))
+                    .map(|idx| Payload {
+                        seed: (seed << 20) + 900_000 + idx,
+                        len: rng.below(200) as usize,
+                        embed: None,
+                    })
+                    .collect(),
+            },
+        ];
+        head.push(Step::Truncate {
+            q: 0,
+            p: 40 + rng.below(60) * rng.below(2),
+        });
+        let mut tail: Vec<Step> = steps
+            .into_iter()
+            .filter(|step| step.queue() != Some(0))
+            .collect();
+        head.append(&mut tail);
+        head.push(Step::Restart);
+        for q in 0..prof.queues {
+            head.push(Step::Append {
+                q,
+                pos: None,
+                batch: vec![Payload {
+                    seed: (seed << 20) + 950_000 + q as u64,
+                    len: 10,
+                    embed: None,
+                }],
+            });
+        }
+        steps = head;
+    }
+    if prof.name == "drain" {
+        for q in 0..prof.queues {
+            steps.push(Step::Truncate {
+                q,
+                p: model[q].next + rng.below(3),
+            });
+        }
+        if rng.chance(50) {
+            steps.push(Step::Restart);
         }
     }
     Script {
